@@ -15,6 +15,7 @@ func init() {
 			"a panic while walking a corrupt file becomes a reported error and the channel is closed on every path; the walk reaches no mutator, allocator or file writer; the CLI counts every reported problem, returns a non-nil error when the count is positive, that error reaches os.Exit(1), and the database is opened ReadOnly. " +
 			"NOT decided: whether Check's verdict equals an independent decoder's on every (corrupted) file — in particular 'reports no problem on any file produced by committed transactions' (dynamic). Round 3: every id recorded as reachable (head and overflow pages) is looked up under the same key first; the CLI's count->error decision is decided by executing the closure. Round 4: shared.Read hands the freelist page's ids to Init unfiltered.",
 		Run: func(c *Ctx) {
+			ruleEveryNestedBucketChecked(c, "C19.R8")
 			ruleFreelistReadVerbatim(c, "C19.R7") // "freed twice" is found on the list Read builds
 			c19R1(c, "C19.R1")
 			c19R2(c, "C19.R2")
